@@ -78,7 +78,18 @@ fn run_point(cfg: &RunCfg, i: usize, plan: Option<&FaultPlan>, out: &mut RunOut,
             f.armed = false;
             po.calls = f.counter;
             po.fired = f.tripped;
+            let st = f.stats.clone();
             drop(f);
+            if plan.map(|p| p.k != u64::MAX).unwrap_or(false) {
+                out.add("fault.trait_call_error", st.trait_err);
+                out.add("fault.handle_call_error", st.handle_err);
+                if let Some(p) = plan {
+                    out.add(&format!("fault.kind.{}", p.kind), st.trait_err + st.handle_err);
+                    if p.sticky {
+                        out.add("fault.sticky_points", 1);
+                    }
+                }
+            }
             ctl.fault_on.store(cfg.perturb != [0, 0, 0], Ordering::SeqCst);
         }
         if trace {
